@@ -804,6 +804,10 @@ class SX:
         key = ('undecorated', id(fn))
         if key in self._fn_cache:
             return self._fn_cache[key][1]
+        generic = self._generic_wrapper_variants(fn, decos) if len(decos) == 1 else None
+        if generic is not None:
+            self._fn_cache[key] = (fn, generic)
+            return generic
         if len(decos) != 1 or not isinstance(decos[0][0], ast.Name) or decos[0][1] not in self.model.functions:
             raise CannotDecide(f'{fn.name} runs under the decorator @{ast.unparse(decos[0][0])[:40]}, which is outside the resolved shapes')
         dmod, dfn = self.model.functions[decos[0][1]]
@@ -832,6 +836,71 @@ class SX:
         self._fn_cache[key] = (fn, new)
         return new
 
+    def _generic_wrapper_variants(self, fn, decos):
+        """`@deco` or `@factory(consts)` whose wrapper is `def wrapper(*a, **k): <prefix>; return f(*a, **k)`: two variants of the
+        function - prefix (its locals renamed, a / k bound for an all-positional resp. all-keyword call) followed by the body."""
+        d, nm = decos[0]
+        if nm not in self.model.functions or fn.args.vararg or fn.args.kwarg or fn.args.kwonlyargs or fn.args.posonlyargs:
+            return None
+        dmod, dfn = self.model.functions[nm]
+        binds = []
+        if isinstance(d, ast.Call):
+            # a decorator factory called with constants
+            pars = [a.arg for a in dfn.args.args]
+            given = dict(zip(pars, d.args))
+            given.update({k.arg: k.value for k in d.keywords if k.arg})
+            if not all(isinstance(v, ast.Constant) for v in given.values()):
+                return None
+            body = strip_docstring(dfn.body)
+            inner = [b for b in body if isinstance(b, ast.FunctionDef)]
+            if len(inner) != 1 or not (isinstance(body[-1], ast.Return) and isinstance(body[-1].value, ast.Name) and body[-1].value.id == inner[0].name):
+                return None
+            binds = [ast.Assign(targets=[ast.Name(id=k + '__wrapper', ctx=ast.Store())], value=v) for k, v in given.items()]
+            factory_names = set(given)
+            dfn = inner[0]
+        else:
+            factory_names = set()
+        body = strip_docstring(dfn.body)
+        inner = [b for b in body if isinstance(b, ast.FunctionDef)]
+        if len(dfn.args.args) != 1 or len(inner) != 1 or not (isinstance(body[-1], ast.Return) and isinstance(body[-1].value, ast.Name)
+                                                              and body[-1].value.id == inner[0].name):
+            return None
+        f_par, w = dfn.args.args[0].arg, inner[0]
+        wbody = strip_docstring(w.body)
+        if w.args.args or not w.args.vararg or not w.args.kwarg or not wbody:
+            return None
+        va, kw = w.args.vararg.arg, w.args.kwarg.arg
+        last = wbody[-1]
+        ok = isinstance(last, ast.Return) and isinstance(last.value, ast.Call) and isinstance(last.value.func, ast.Name) \
+            and last.value.func.id == f_par and len(last.value.args) == 1 and isinstance(last.value.args[0], ast.Starred) \
+            and getattr(last.value.args[0].value, 'id', None) == va and len(last.value.keywords) == 1 and last.value.keywords[0].arg is None \
+            and getattr(last.value.keywords[0].value, 'id', None) == kw \
+            and not any(isinstance(x, ast.Name) and x.id == f_par for b in wbody[:-1] for x in ast.walk(b))
+        if not ok:
+            return None
+        local = {x.id for b in wbody[:-1] for x in ast.walk(b) if isinstance(x, ast.Name) and isinstance(x.ctx, ast.Store)} | {va, kw} | factory_names
+
+        class Ren(ast.NodeTransformer):
+            def visit_Name(self, node):
+                return ast.copy_location(ast.Name(id=node.id + '__wrapper', ctx=node.ctx), node) if node.id in local else node
+        prefix = [Ren().visit(copy.deepcopy(b)) for b in wbody[:-1]]
+        params = [a.arg for a in fn.args.args]
+        out = []
+        for positional in (True, False):
+            tup = ast.Tuple(elts=[ast.Name(id=p_, ctx=ast.Load()) for p_ in params] if positional else [], ctx=ast.Load())
+            dic = ast.Call(func=ast.Name(id='dict', ctx=ast.Load()), args=[], keywords=[]) if positional else \
+                ast.Dict(keys=[ast.Constant(value=p_) for p_ in params], values=[ast.Name(id=p_, ctx=ast.Load()) for p_ in params])
+            new = copy.copy(fn)
+            new.decorator_list = [x for x in fn.decorator_list if x is not d]
+            new.body = [copy.deepcopy(b) for b in binds] + [
+                ast.Assign(targets=[ast.Name(id=va + '__wrapper', ctx=ast.Store())], value=tup),
+                ast.Assign(targets=[ast.Name(id=kw + '__wrapper', ctx=ast.Store())], value=dic)] + [copy.deepcopy(b) for b in prefix] + list(fn.body)
+            for b in new.body:
+                ast.copy_location(b, fn) if not hasattr(b, 'lineno') else None
+                ast.fix_missing_locations(b)
+            out.append(new)
+        return out
+
     # ---- entry points
     def run(self, fn: ast.FunctionDef, module: str, cls: str = None, self_val: V = None, args: dict = None,
             state: State = None, depth=0) -> list:
@@ -843,6 +912,13 @@ class SX:
                 # a memoised function answers from an earlier call: evaluating its body says nothing about later calls (fail closed)
                 raise CannotDecide(f'{fn.name} is memoised (@{ast.unparse(d)[:40]}): its result may be that of an earlier state')
         fn = self._undecorate(fn, module)
+        if isinstance(fn, list):
+            # a generic wrapper (*args, **kwargs): the function is reached under both calling conventions, all-positional and
+            # all-keyword; the outcomes of both count
+            outs_ = []
+            for variant in fn:
+                outs_.extend(self.run(variant, module, cls, self_val, dict(args or {}), state, depth))
+            return outs_
         if self.fn_transform is not None:
             key = id(fn)
             if key not in self._fn_cache:
@@ -3117,7 +3193,7 @@ class SX:
                 return [(st, recv)]
         if isinstance(recv, (N,)) and attr == 'take':
             return [(st, recv)]
-        if self.eval_comprehensions and isinstance(recv, Dv) and attr == 'get' and len(args) in (1, 2) and isinstance(args[0], Sv) and not kwargs:
+        if isinstance(recv, Dv) and attr == 'get' and len(args) in (1, 2) and isinstance(args[0], Sv) and not kwargs:
             return [(st, recv.items[args[0].s] if args[0].s in recv.items else (args[1] if len(args) == 2 else NoneV()))]
         if self.eval_comprehensions and isinstance(recv, Dv) and attr in ('items', 'values', 'keys') and not args:
             if attr == 'items':
@@ -3312,6 +3388,8 @@ class SX:
         if name == 'zip' and args and all(isinstance(a, Tv) and a.kind != 'generator' for a in args) and not kwargs and name not in m.functions:
             n_ = min(len(a.items) for a in args)
             return [(st, Tv([Tv([a.items[i] for a in args], 'tuple') for i in range(n_)], 'list'))]
+        if name == 'dict' and not args and not kwargs and name not in m.functions:
+            return [(st, Dv({}))]
         if name == 'dict' and len(args) == 1 and isinstance(args[0], Tv) and not kwargs \
                 and all(isinstance(i, Tv) and len(i.items) == 2 and isinstance(i.items[0], Sv) for i in args[0].items):
             return [(st, Dv({i.items[0].s: i.items[1] for i in args[0].items}))]
